@@ -176,6 +176,9 @@ func (its *mapSnapshot) putCommonWithTimedType(key string, newOne timedType) (o 
 
 	if oldOne.getTime().Compare(newOne.getTime()) < 0 {
 		its.Map[key] = newOne
+		if oldOne.isTomb() { // a removed key becomes live again
+			its.Size++
+		}
 		return oldOne, newOne
 	}
 	return newOne, oldOne
